@@ -69,6 +69,9 @@ def partA_cases():
             inits.append(('several', SEVERAL[name]))
         if name in CAN_BE_UNSET:
             inits.append(('unset', []))
+        if TYPES[name][1] in ('comma', 'lines') and name != 'SocksPort':
+            # set, to nothing ("250 Name="): not the same as unset - the default does not apply
+            inits.append(('set-empty', ['']))
         if name == 'SocksPort':
             inits.append(('unset-with-__SocksPort', []))
             # lines that merely contain the word "auto" are ordinary lines
@@ -103,6 +106,13 @@ def run_partA(name, label, vals, dmode, extra=()):
         want = expected_read(name, list(vals), default)
         for spelling in (name, name.lower(), name.upper()):
             got = impl.read(spelling)
+            if label == 'set-empty':
+                # an empty list, or a list holding the one empty text Tor sent
+                if norm(got) not in ([], ['']):
+                    viol.append(('read-differs', feat, 'option %s is set to nothing (Tor: "%s=", default %r); read as %r gives %r'
+                                 % (name, name, default, spelling, norm(got))))
+                    break
+                continue
             if not same(got, want):
                 viol.append(('read-differs', feat, 'option %s (Tor: %r, default %r) read as %r gives %r, reference %r'
                              % (name, list(vals), default, spelling, norm(got), want)))
